@@ -109,10 +109,21 @@ OK20(e) ==
             /\ LenientMatches(e, q)
 
 \* ---- C11
+\* Known finding C11_LENIENT_OVERRUN (DESIGN.md section 0.4, D5): the lenient front-ends do not hold a self-delimiting
+\* body to the declared remaining length; when the body overruns the declared frame and the true remaining length
+\* needs a wider length field than the declared one, the re-encoding is longer than what was consumed by exactly
+\* that difference in width (at most 3 bytes).  The class: a lenient front-end that consumed more than the frame it
+\* was given declares.
+LenientOverrun(e) ==
+    /\ e.front \in {"block", "async"}
+    /\ LET d == DecVarIntAt(e.bytes, 2) IN
+       /\ d.st = "ok" /\ 1 + d.w + d.val < e.consumed
+       /\ Len(e.reenc.bytes) - e.consumed = DecVarIntAt(e.reenc.bytes, 2).w - d.w
 OK11(e) ==
     /\ e.reenc.k = "ok"
     /\ OkPkt(e.redec_block, e.packet) /\ OkPkt(e.redec_async, e.packet) /\ OkPkt(e.redec_poll, e.packet)
-    /\ Len(e.reenc.bytes) <= e.consumed
+    /\ \/ Len(e.reenc.bytes) <= e.consumed
+       \/ (LenientOverrun(e) /\ AcceptedAsKnown("C11_LENIENT_OVERRUN", e))
 
 \* ---- C12
 NonZeroPids(p) ==
